@@ -7,7 +7,7 @@ props = [json.loads(l) for l in open(os.path.join(ROOT, "properties.jsonl"))]
 CHECKS = {
     "C04": dict(
         category="model_checking", design_ref="DESIGN.md 4.1, 5/C04",
-        technique="TLA+ spec Nexus.tla model-checked with TLC (9 graph shapes, all public node operations); every bounded history replayed on the real nexus nodes with a final read of every node (GenNexus path tree + simulation)",
+        technique="TLA+ spec Nexus.tla model-checked with TLC (9 graph shapes, all public node operations); every bounded history replayed on the real nexus nodes with a final read of every node (GenNexus path tree + simulation); executions of real fits and of the repository's own fit tests recorded at run time and validated against the property monitor TraceNexus.tla",
         text="TLC explores all histories of the graph mechanism up to the bound and checks ReadCorrect, AtMostOncePerRead, NoSpuriousRecompute, "
              "FreshIsIdeal, StaleUpwardClosed, Acyclic and RejectLeavesUnchanged in every state; every one of those histories is then executed on "
              "the real kafe2 nodes and each read is compared with the specification's ideal value (terms record what a value was computed from), "
